@@ -39,7 +39,9 @@ pub unsafe fn dealloc_count(_p: *mut u8, _l: Layout) {
 // CONCRETE offset, symbolic chunk start.
 // ---------------------------------------------------------------------------
 
-#[repr(C, align(4096))]
+// (no align(4096): it would pad the object to 4096 bytes; CBMC object bases are
+// aligned to 2^48 anyway)
+#[repr(C, align(16))]
 pub struct Backing<const TOTAL: usize>(pub [u8; TOTAL]);
 
 #[derive(Clone, Copy)]
@@ -264,4 +266,162 @@ pub unsafe fn copy_loop<T>(src: *const T, dst: *mut T, count: usize) {
         }
     }
     COPY_CALLS += 1;
+}
+
+// ---------------------------------------------------------------------------
+// A-pool: <= 3 concrete slots, symbolic refusal mask, symbolic displacement, ledger
+// (DESIGN §3.1).  SLOT bytes per slot; the i-th ACCEPTED request gets slot i.
+// ---------------------------------------------------------------------------
+
+pub const SLOTS: usize = 3;
+pub const SLOT: usize = 1136; // = 48 (mod 64): end-aligned blocks of size 2^j-16 start 64-aligned
+
+#[repr(C, align(16))]
+pub struct Slot(pub [u8; SLOT]);
+
+// three separate objects (one array object of 3 slots made every footer access a
+// symbolic-offset access into a 12 KiB array: out of memory at 10 GB)
+pub static mut POOL0: Slot = Slot([0; SLOT]);
+pub static mut POOL1: Slot = Slot([0; SLOT]);
+pub static mut POOL2: Slot = Slot([0; SLOT]);
+
+#[derive(Clone, Copy)]
+pub struct Rec {
+    pub ptr: usize,
+    pub size: usize,
+    pub align: usize,
+    pub live: bool,
+}
+pub const NOREC: Rec = Rec { ptr: 0, size: 0, align: 0, live: false };
+pub static mut LEDGER: [Rec; SLOTS] = [NOREC; SLOTS];
+pub static mut NREC: usize = 0; // accepted requests so far (= slots used)
+pub static mut NREQ: usize = 0; // requests so far (accepted or refused)
+pub static mut NFREE: usize = 0;
+pub static mut FAIL_MASK: u8 = 0;
+pub static mut FOREIGN_FREE: bool = false;
+pub static mut DOUBLE_FREE: bool = false;
+pub static mut LAYOUT_MISMATCH: bool = false;
+/// displacement of a handed-out block inside its slot, in units of the requested alignment
+pub static mut DISPLACE: u8 = 0;
+
+pub unsafe fn pool_reset(mask: u8) {
+    NREC = 0;
+    NREQ = 0;
+    NFREE = 0;
+    NLOG = 0;
+    FORBID_ALLOC = false;
+    FAIL_MASK = mask;
+    FOREIGN_FREE = false;
+    DOUBLE_FREE = false;
+    LAYOUT_MISMATCH = false;
+    LEDGER = [NOREC; SLOTS];
+}
+
+pub unsafe fn slot_base(i: usize) -> *mut u8 {
+    if i == 0 {
+        core::ptr::addr_of_mut!(POOL0) as *mut u8
+    } else if i == 1 {
+        core::ptr::addr_of_mut!(POOL1) as *mut u8
+    } else {
+        core::ptr::addr_of_mut!(POOL2) as *mut u8
+    }
+}
+
+/// When set, any request reaching the global allocator is a failure of the harness's claim
+/// ("served without obtaining memory") and the path ends there.
+pub static mut FORBID_ALLOC: bool = false;
+
+pub unsafe fn alloc_pool(l: Layout) -> *mut u8 {
+    if FORBID_ALLOC {
+        assert!(false, "[C06,C11,C18] a request that must be served from the current chunk went to the global allocator");
+        kani::assume(false);
+    }
+    if NLOG < LOGN {
+        LOG[NLOG] = (l.size(), l.align());
+    }
+    NLOG += 1;
+    let ord = NREQ;
+    NREQ += 1;
+    if ord < 8 && (FAIL_MASK >> ord) & 1 == 1 {
+        return ptr::null_mut();
+    }
+    if ord >= 8 || NREC >= SLOTS {
+        return ptr::null_mut();
+    }
+    let a = l.align();
+    // DISPLACE is concrete per harness (0, 1 or 3 times the requested alignment): a
+    // nondeterministic 3-way choice here makes every access to the new chunk a
+    // symbolic-offset access (measured: 21 k -> 1.9 M SAT variables for one call).
+    let d = (DISPLACE as usize) * a;
+    if l.size() > SLOT || d > SLOT - l.size() {
+        // does not fit the slot at this displacement: model it as a refusal
+        return ptr::null_mut();
+    }
+    // END-aligned placement: the block ends at the concrete offset SLOT - d, so the
+    // chunk footer (which bumpalo puts at the end of the block) always lands at the same
+    // concrete offset whatever candidate size was accepted.  With start-aligned placement
+    // the footer address is an if-then-else over the accepted candidate, i.e. a
+    // symbolic-offset pointer, and every later access costs O(object size) (out of memory).
+    let off = SLOT - d - l.size();
+    if off & (a - 1) != 0 {
+        // this slot cannot give the requested alignment at this displacement: refusal
+        return ptr::null_mut();
+    }
+    let p = slot_base(NREC).add(off);
+    LEDGER[NREC] = Rec { ptr: p as usize, size: l.size(), align: a, live: true };
+    NREC += 1;
+    p
+}
+
+pub unsafe fn dealloc_pool(p: *mut u8, l: Layout) {
+    NFREE += 1;
+    let pa = p as usize;
+    let mut found = false;
+    let mut i = 0;
+    while i < SLOTS {
+        if i < NREC && LEDGER[i].ptr == pa {
+            found = true;
+            if !LEDGER[i].live {
+                DOUBLE_FREE = true;
+            }
+            if LEDGER[i].size != l.size() || LEDGER[i].align != l.align() {
+                LAYOUT_MISMATCH = true;
+            }
+            LEDGER[i].live = false;
+        }
+        i += 1;
+    }
+    if !found {
+        FOREIGN_FREE = true;
+    }
+}
+
+/// Register a hand-made chunk as if A-pool had handed it out (RI clause 4).
+pub unsafe fn pool_register(p: *mut u8, size: usize, align: usize) {
+    LEDGER[NREC] = Rec { ptr: p as usize, size, align, live: true };
+    NREC += 1;
+}
+
+pub unsafe fn ledger_live_bytes() -> usize {
+    let mut t = 0;
+    let mut i = 0;
+    while i < SLOTS {
+        if i < NREC && LEDGER[i].live {
+            t += LEDGER[i].size;
+        }
+        i += 1;
+    }
+    t
+}
+
+pub unsafe fn ledger_live_count() -> usize {
+    let mut t = 0;
+    let mut i = 0;
+    while i < SLOTS {
+        if i < NREC && LEDGER[i].live {
+            t += 1;
+        }
+        i += 1;
+    }
+    t
 }
